@@ -94,8 +94,10 @@ def targets():
     return ts
 
 
-STAGES = [['C10_euler.v', 'C10_axang.v', 'C10_explog.v', 'C10_seq.v', 'C10_mlog.v',
-           ('C10_refuted.v', {'finding': 'DCM(rpy)/angle-order-differs-from-Quaternion(rpy)'})], ['C10.v']]
+STAGES = [['C10_defs.v'],
+          ['C10_euler.v', 'C10_axang.v', 'C10_explog.v', 'C10_seq.v', 'C10_ctor.v', 'C10_mlog.v'],
+          [('C10_refuted.v', {'finding': 'DCM(rpy)/angle-order-differs-from-Quaternion(rpy)'})],
+          ['C10.v']]
 
 
 # ------------------------------------------------------------------------------------------
